@@ -121,6 +121,9 @@ func (r *RigS) onRegistration(st *SimStream) {
 		return
 	}
 	key := domainKey(owner, tgt, st.Coll, st.Shard)
+	r.mu.Lock()
+	r.delivered[fmt.Sprintf("%d|%d|%d", tgt, st.Coll, st.Shard)] = -1
+	r.mu.Unlock()
 	log := r.mq.Logs[st.PCh]
 	from, again := r.st.Domain[key]
 	if !again {
@@ -148,20 +151,63 @@ func (r *RigS) onRegistration(st *SimStream) {
 			return
 		}
 	}
-	var skipped []int64
+	var skipped, byTime []int64
 	for i, e := range log {
 		if i < from || (e.Kind != "ins" && e.Kind != "del") || e.Coll != st.Coll || e.Shard != st.Shard {
 			continue
 		}
 		if e.Seq < st.SeekSeq || e.Ts <= st.SeekTs {
 			if !r.acked(tgt, e.Tag) {
-				skipped = append(skipped, e.Tag)
+				if e.Seq >= st.SeekSeq {
+					byTime = append(byTime, e.Tag)
+				} else {
+					skipped = append(skipped, e.Tag)
+				}
 			}
 		}
 	}
 	if len(skipped) > 0 {
 		r.s.Violate("C05", "resume_skips_unacked", "stream %s of task %s registered at msg id %d / ts %d skips messages (tags %v) that the downstream never acknowledged", st.Key(), owner, st.SeekSeq, st.SeekTs, skipped)
 	}
+	if len(byTime) > 0 {
+		// the messages lie after the checkpoint's message id and are dropped by the time filter of the seek. The pinned design
+		// derives that time from the re-stamped (downstream-domain) end time of the acknowledged pack: recognised as that
+		// design issue only when the seek time is exactly (end time of an acknowledged pack with that message id) + 1 ms
+		cls := ""
+		for _, a := range r.st.SDK[tgt].Acks {
+			if a.EndSeq == st.SeekSeq && ((a.EndTs>>18)+1)<<18 == st.SeekTs {
+				cls = "_by_restamped_checkpoint_time"
+			}
+		}
+		if c := r.collByID[st.Coll]; cls == "" && c != nil && ((c.Ts>>18)+1)<<18 == st.SeekTs {
+			// the checkpoint is still the collection's start position; its time is the creation time cut to milliseconds,
+			// plus one millisecond: messages stamped within that millisecond are dropped by the filter
+			cls = "_by_start_time_rounding"
+		}
+		if cls != "" {
+			r.st.TimeSkipped[key] = append(r.st.TimeSkipped[key], byTime...)
+		}
+		r.s.Violate("C05", "resume_skips_unacked"+cls, "stream %s of task %s registered at msg id %d / ts %d: messages (tags %v) after that message id lie below the seek time and are dropped although the downstream never acknowledged them", st.Key(), owner, st.SeekSeq, st.SeekTs, byTime)
+	}
+}
+
+// consequenceOfTimeSkip: every tag is one that a resume dropped through the re-stamped checkpoint time (see onRegistration).
+func (r *RigS) consequenceOfTimeSkip(key string, tags []int64) bool {
+	if len(tags) == 0 || len(r.st.TimeSkipped[key]) == 0 {
+		return false
+	}
+	for _, t := range tags {
+		found := false
+		for _, x := range r.st.TimeSkipped[key] {
+			if x == t {
+				found = true
+			}
+		}
+		if !found {
+			return false
+		}
+	}
+	return true
 }
 
 func (r *RigS) droppedAtSource(coll int64) bool {
@@ -286,7 +332,11 @@ func (r *RigS) checkCheckpoints() {
 		}
 		if old, ok := r.st.Frozen[fk]; ok {
 			if old != canon {
-				r.s.Violate("C05", "dropped_checkpoint_changed", "checkpoint of task %s collection %d changed after the drop was recorded: %s -> %s", p.TaskID, p.CollectionID, old, canon)
+				cls := ""
+				if r.st.PosRace[fmt.Sprintf("%s/%d", p.TaskID, p.CollectionID)] {
+					cls = "_concurrent_checkpoint_updates"
+				}
+				r.s.Violate("C05", "dropped_checkpoint_changed"+cls, "checkpoint of task %s collection %d changed after the drop was recorded: %s -> %s", p.TaskID, p.CollectionID, old, canon)
 			}
 			continue
 		}
@@ -325,8 +375,19 @@ func (r *RigS) checkCheckpoints() {
 				}
 			}
 			r.s.Probe("checkpoint_checked")
+			if len(un) > 0 && r.droppedAtSource(p.CollectionID) {
+				// the reader leaves out rows of a collection that is already dropped at the source
+				un = nil
+			}
 			if len(un) > 0 {
-				r.s.Violate("C05", "checkpoint_ahead", "persisted checkpoint of task %s collection %d on %s is msg id %d but messages %v up to it were never acknowledged by the downstream", p.TaskID, p.CollectionID, pch, seq, un)
+				cls := ""
+				if r.st.StaleAck[fmt.Sprintf("%d|%d|%d", tgt, p.CollectionID, shard)] {
+					cls = "_stale_pack_after_resume"
+				}
+				if r.consequenceOfTimeSkip(key, un) {
+					cls = "_after_restamped_time_skip"
+				}
+				r.s.Violate("C05", "checkpoint_ahead"+cls, "persisted checkpoint of task %s collection %d on %s is msg id %d but messages %v up to it were never acknowledged by the downstream", p.TaskID, p.CollectionID, pch, seq, un)
 			}
 		}
 	}
@@ -564,9 +625,11 @@ func (r *RigS) checkReload(tasks map[string]*meta.TaskInfo, sn server.VerifSnaps
 }
 
 // Known weak spots get their own rule names so that they can be listed as findings without hiding anything else:
-//   orphan    - the store holds a task in state Initial whose create request was answered with an error while store faults were injected
-//               (the clean-up of a failed create failed too, or the record write was applied but reported as failed)
-//   ambiguous - a store write concerning the task was applied but reported as failed (store_err_after)
+//
+//	orphan    - the store holds a task in state Initial whose create request was answered with an error while store faults were injected
+//	            (the clean-up of a failed create failed too, or the record write was applied but reported as failed)
+//	ambiguous - a store write concerning the task was applied but reported as failed (store_err_after)
+//
 // storeFaultsNow: store faults injected in this incarnation.
 func (r *RigS) storeFaultsNow() int {
 	return r.s.Stats["fault:store_err_before"] + r.s.Stats["fault:store_err_after"] - r.storeFaultsAtStart
@@ -941,9 +1004,40 @@ func (r *RigS) finalOracles() {
 		}
 		if ti.State == meta.TaskStatePaused && !t.OpPause {
 			s.Probe("task_paused_by_failure")
-			if s.Stats["fault:dw_err"]+s.Stats["fault:ddl_reject_before"]+s.Stats["fault:tq_err"]+s.Stats["fault:store_err_before"]+s.Stats["fault:store_err_after"] == 0 {
-				s.Violate("C06", "paused_without_failure", "task %s ended Paused (%q) although no failure was injected", id, ti.Reason)
+		}
+	}
+	// a task that runs keeps its share of the replication machinery of its downstream, whatever happened to its neighbours
+	if ok && len(s.Parked()) == 0 {
+		for _, id := range SortedKeys(tasks) {
+			ti := tasks[id]
+			if ti.State != meta.TaskStateRunning || sn.Tasks[id].State != "Running" {
+				continue
 			}
+			ent, have := sn.Entities[ukeyOf(ti)]
+			if !have || !contains(ent.QuitFuncs, id) {
+				s.Violate("C06", "running_task_lost_its_replication"+r.classOf(tasks, SortedKeys(tasks)...), "task %s is Running (store and memory) but the replication entity of %s is gone or does not hold it (entity present: %v)", id, ukeyOf(ti), have)
+			}
+		}
+	}
+	// the task whose write the downstream rejected ends Paused with a reason (unless the operator resumed it afterwards,
+	// or the process was restarted, which starts it again)
+	for _, rej := range r.st.Rejected {
+		ti := tasks[rej.Task]
+		if ti == nil || rej.Inc != r.plan.Incarnation {
+			continue
+		}
+		resumed := false
+		for _, rec := range r.st.OpLog {
+			if rec.Task == rej.Task && rec.Inc == rej.Inc && rec.Step >= rej.Step && (rec.K == "resume" || rec.K == "pause" || rec.K == "delete" || rec.K == "create") {
+				resumed = true
+			}
+		}
+		if resumed {
+			continue
+		}
+		s.Probe("rejected_write_checked")
+		if ti.State != meta.TaskStatePaused || ti.Reason == "" {
+			s.Violate("C06", "failing_task_not_paused"+r.classOf(tasks, rej.Task), "the downstream rejected a write of task %s at step %d, but the task ends %s (reason %q)", rej.Task, rej.Step, ti.State.String(), ti.Reason)
 		}
 	}
 	// first acknowledgements arrive in source order without gaps (a failing message is never skipped), and
@@ -968,9 +1062,16 @@ func (r *RigS) finalOracles() {
 				es = append(es, ent{e.Tag, c, ok})
 			}
 		}
-		for i := 1; i < len(es); i++ {
+		for i := 1; i < len(es) && !r.droppedAtSource(coll); i++ {
 			if es[i].ok && (!es[i-1].ok || es[i-1].clock > es[i].clock) {
-				s.Violate("C06", "message_skipped", "target %d collection %d shard %d: message %d was acknowledged while the earlier message %d was not (yet)", tgt, coll, shard, es[i].tag, es[i-1].tag)
+				cls := ""
+				if r.st.StaleAck[fmt.Sprintf("%d|%d|%d", tgt, coll, shard)] {
+					cls = "_stale_pack_after_resume"
+				}
+				if !es[i-1].ok && r.consequenceOfTimeSkip(key, []int64{es[i-1].tag}) {
+					cls = "_after_restamped_time_skip"
+				}
+				s.Violate("C06", "message_skipped"+cls, "target %d collection %d shard %d: message %d was acknowledged while the earlier message %d was not (yet)", tgt, coll, shard, es[i].tag, es[i-1].tag)
 				break
 			}
 		}
@@ -984,7 +1085,8 @@ func (r *RigS) finalOracles() {
 			continue // the task was deleted
 		}
 		m := r.st.Tasks[owner]
-		if tasks[owner].State != meta.TaskStateRunning || m == nil {
+		if tasks[owner].State != meta.TaskStateRunning || m == nil || !ok || sn.Tasks[owner].State != "Running" {
+			// (a task that is Paused in memory only is a disagreement of the views, judged by the lifecycle check)
 			s.Probe("owner_not_running_at_end")
 			continue
 		}
@@ -1001,7 +1103,20 @@ func (r *RigS) finalOracles() {
 		}
 		s.Probe("liveness_checked")
 		if len(lost) > 0 {
-			s.Violate("C05", "lost_message", "task %s is running and idle at the end, but messages %v of collection %d shard %d never reached target %d", owner, lost, coll, shard, tgt)
+			cls := r.classOf(tasks, owner)
+			if cls == "" {
+				for id2, t2 := range tasks {
+					if id2 != owner && ukeyOf(t2) == ukeyOf(tasks[owner]) && t2.State == meta.TaskStatePaused && t2.Reason != "" && !strings.HasPrefix(t2.Reason, "manually pause") {
+						// a task on the same downstream stopped because of a failure: the per-channel / per-downstream loops of the
+						// shared replication entity return after a failure and nobody serves the healthy task any more
+						cls = "_bystander_of_failed_task"
+					}
+				}
+			}
+			if r.consequenceOfTimeSkip(key, lost) {
+				cls = "_after_restamped_time_skip"
+			}
+			s.Violate("C05", "lost_message"+cls, "task %s is running and idle at the end, but messages %v of collection %d shard %d never reached target %d", owner, lost, coll, shard, tgt)
 		}
 	}
 }
